@@ -78,6 +78,9 @@ class TTMLElement:
 
       self.explicit_dur: typing.Optional[Fraction] = None
 
+      # in a sequential time container: end of the last child relative to the begin of the container (None if it never ends)
+      self.seq_end: typing.Optional[Fraction] = Fraction(0)
+
     def process_lang_attribute(self, parent_ctx: TTMLElement.ParsingContext, xml_elem):
       '''Processes the xml:lang attribute, including inheritance from the parent
       '''
@@ -826,7 +829,7 @@ class ContentElement(TTMLElement):
       if parent_ctx.time_container.is_par():
         self.implicit_begin = Fraction(0)
       else:      
-        self.implicit_begin = parent_ctx.implicit_end - parent_ctx.desired_begin
+        self.implicit_begin = parent_ctx.seq_end
       
       self.desired_begin = self.implicit_begin + (self.explicit_begin if self.explicit_begin is not None else Fraction(0))
 
@@ -856,6 +859,10 @@ class ContentElement(TTMLElement):
           StyleElement.from_xml(self, child_xml_element)
           continue
 
+        if self.time_container.is_seq() and self.seq_end is None:
+          LOGGER.warning("Children of a sequential time container that follow a child with indefinite end never begin")
+          break
+
         child_element = ContentElement.from_xml(self, child_xml_element)
 
         if child_element is not None:
@@ -867,6 +874,8 @@ class ContentElement(TTMLElement):
             is_inline_animation_complete = True
 
           if self.time_container.is_seq():
+
+            self.seq_end = child_element.desired_end
 
             self.implicit_end = None if child_element.desired_end is None else child_element.desired_end + self.desired_begin
 
